@@ -350,6 +350,45 @@ pub fn check_pca(c: &Case, obs: &mut Obs) {
     }
     obs.class_if(resid_own > 1e-10, "residual>1e-10");
     obs.class_if(resid_own > 1e-7, "residual>1e-7");
+    // MEASURE: pair residual |C u_j - l_j u_j| in units of the configured solver tolerance 1e-10*max(trace C, 1/(n-1))
+    {
+        let trace: f64 = (0..p).map(|i| cov[i][i]).sum();
+        let unit = 1e-10 * trace.max(1.0 / nm1);
+        let mut rmax = 0.0f64;
+        for j in 0..kk {
+            let lj = sigma[j] * sigma[j] / nm1;
+            let r2: f64 = cus[j].iter().zip(&dirs[j]).map(|(a, b)| (a - lj * b).powi(2)).sum();
+            rmax = rmax.max(r2.sqrt() / unit);
+        }
+        let reg = if small_problem { "dense" } else { "lobpcg" };
+        let b = if rmax <= 1.0 { "<=1" } else if rmax <= 10.0 { "<=1e1" } else if rmax <= 100.0 { "<=1e2" } else if rmax <= 1e3 { "<=1e3" } else if rmax <= 1e4 { "<=1e4" } else if rmax <= 1e5 { "<=1e5" } else { ">1e5" };
+        let name: &'static str = Box::leak(format!("MEAS:{reg}:pairresid{b}").into_boxed_str());
+        obs.class(name);
+        {
+            let relgap = if k < p { (lam[k - 1] - lam[k]) / lam[k - 1] } else { 1.0 };
+            if !small_problem && 2 * n >= 10 * p && relgap >= 0.2 {
+                let name: &'static str = Box::leak(format!("MEAS:R:{b}").into_boxed_str());
+                obs.class(name);
+            }
+            if !small_problem && 2 * n >= 10 * p && relgap >= 0.05 && relgap < 0.2 {
+                let name: &'static str = Box::leak(format!("MEAS:R5-20:{b}").into_boxed_str());
+                obs.class(name);
+            }
+        }
+        if rmax > 1.0 {
+            let relgap = if k < p { (lam[k - 1] - lam[k]) / lam[k - 1] } else { 1.0 };
+            let g = if relgap < 0.01 { "<1%" } else if relgap < 0.05 { "<5%" } else if relgap < 0.2 { "<20%" } else { ">=20%" };
+            let nn = if 2 * n < 10 * p { "2n<10p" } else { "2n>=10p" };
+            let name: &'static str = Box::leak(format!("MEAS:{reg}:outlier:relgap{g}:{nn}:k{}:{b}", if k == p { "=p" } else if k == 1 { "=1" } else { "mid" }).into_boxed_str());
+            obs.class(name);
+        }
+        if !small_problem {
+            let relgap = if k < p { (lam[k - 1] - lam[k]) / lam[k - 1] } else { 1.0 };
+            let g = if relgap < 0.01 { "<1%" } else if relgap < 0.05 { "<5%" } else if relgap < 0.2 { "<20%" } else { ">=20%" };
+            let name: &'static str = Box::leak(format!("MEAS:lobpcg:all:relgap{g}").into_boxed_str());
+            obs.class(name);
+        }
+    }
     obs.class_if(resid_own > RESID_MAX && ritz_like, "component_not_converged_on_own_scale_but_ritz_consistent");
     let l: Vec<f64> = sigma.iter().map(|s| s * s / nm1).collect();
     let values_are_eigs = l.iter().all(|v| lam.iter().any(|e| (v - e).abs() <= RESID_MAX * e.abs()));
